@@ -110,7 +110,9 @@ Proof.
     split; [exists line2, h2, u2, p2; split; [exact Hm2|]; split; [exact Hl2|]; split; [exact Econn|];
             split; [exact Eup|reflexivity]|].
     right. repeat split; assumption.
-  - apply bytes_eqb_neq in Esec. cbn [sout] in H. inversion H; subst.
+  - apply bytes_eqb_neq in Esec.
+    destruct (negb (c_secure c) && c_cert c && c_reqcc c) eqn:Ereq; [discriminate|].
+    cbn [sout] in H. inversion H; subst.
     exists r1, r2, (split_field (hget k_accepts h)), (hget k_security h2).
     split; [reflexivity|].
     split; [exists line1, h, u, p; split; [exact Hm1|]; split; [exact Hl1|reflexivity]|].
@@ -144,9 +146,22 @@ Proof.
   rewrite Hup, bytes_eqb_refl. cbn [negb].
   cbn [r_eof r_rest sr_reader sbytes seof].
   rewrite <- Hsec.
-  destruct Htls as [(Hno & -> & ->)|(Hyes & Hc1 & Hc2 & -> & -> & ->)].
-  - apply bytes_eqb_neq in Hno. rewrite Hno. reflexivity.
+  destruct Htls as [(Hno & Hreq & -> & ->)|(Hyes & Hc1 & Hc2 & -> & -> & ->)].
+  - apply bytes_eqb_neq in Hno. rewrite Hno, Hreq. reflexivity.
   - rewrite Hyes, bytes_eqb_refl, Hc1, Hc2. reflexivity.
+Qed.
+
+(* a server that demands client certificates on an unencrypted carrier establishes TLS sessions only: a peer that never asks for
+   StartTLS - and so could not present a certificate - is not let in, whatever octets it sends *)
+Theorem reqcc_needs_tls : forall tls c b v sec t rest,
+  c_secure c = false -> c_cert c = true -> c_reqcc c = true ->
+  server_session_with tls c b = Established v sec t rest -> sec = true /\ t = TechTls /\ tls = true.
+Proof.
+  intros tls c b v sec t rest H1 H2 H3 H.
+  apply admit_sound in H. destruct H as (r1 & r2 & accepted & security & _ & _ & _ & _ & _ & Hc).
+  destruct Hc as [(_ & Hreq & _ & _)|(_ & _ & _ & Htls & Hsec & Ht)].
+  - rewrite H1, H2, H3 in Hreq. discriminate.
+  - auto.
 Qed.
 
 Theorem admit_iff : forall tls c b v sec t rest,
